@@ -159,8 +159,14 @@ func (s *session) runV2(name string, op J) J {
 		}
 		return r
 	case "put":
-		_, err := cl.PutItem(ctx, &dynamodb.PutItemInput{TableName: table, Item: itemToV2(obj(op, "item")), ConditionExpression: pstr(op, "cond"), ExpressionAttributeNames: names(op), ExpressionAttributeValues: itemToV2(obj(op, "values"))})
-		return res(err)
+		_, err := cl.PutItem(ctx, &dynamodb.PutItemInput{TableName: table, Item: itemToV2(obj(op, "item")), ConditionExpression: pstr(op, "cond"), ExpressionAttributeNames: names(op), ExpressionAttributeValues: itemToV2(obj(op, "values")),
+			ReturnValuesOnConditionCheckFailure: types.ReturnValuesOnConditionCheckFailureAllOld})
+		r := res(err)
+		var cf *types.ConditionalCheckFailedException
+		if errors.As(err, &cf) {
+			r["cf_item"] = itemFromV2(cf.Item)
+		}
+		return r
 	case "get":
 		o, err := cl.GetItem(ctx, &dynamodb.GetItemInput{TableName: table, Key: itemToV2(obj(op, "key")), ExpressionAttributeNames: names(op), ProjectionExpression: pstr(op, "projection")})
 		r := res(err)
@@ -184,12 +190,17 @@ func (s *session) runV2(name string, op J) J {
 		}
 		return r
 	case "delete":
-		in := &dynamodb.DeleteItemInput{TableName: table, Key: itemToV2(obj(op, "key")), ConditionExpression: pstr(op, "cond"), ExpressionAttributeNames: names(op), ExpressionAttributeValues: itemToV2(obj(op, "values"))}
+		in := &dynamodb.DeleteItemInput{TableName: table, Key: itemToV2(obj(op, "key")), ConditionExpression: pstr(op, "cond"), ExpressionAttributeNames: names(op), ExpressionAttributeValues: itemToV2(obj(op, "values")),
+			ReturnValuesOnConditionCheckFailure: types.ReturnValuesOnConditionCheckFailureAllOld}
 		if b, ok := op["return_old"].(bool); ok && b {
 			in.ReturnValues = types.ReturnValueAllOld
 		}
 		o, err := cl.DeleteItem(ctx, in)
 		r := res(err)
+		var cf *types.ConditionalCheckFailedException
+		if errors.As(err, &cf) {
+			r["cf_item"] = itemFromV2(cf.Item)
+		}
 		if o != nil && o.Attributes != nil {
 			r["item"] = itemFromV2(o.Attributes)
 		}
